@@ -199,6 +199,7 @@ class Cls:
         self.members = []      # (name, type)
         self.funcs = {}        # 'read'/'write'/'serialize' -> dict(params, body or None, const, line)
         self.typedefs = {}
+        self.tparams = []      # names of the template parameters of the class template
         self.methods = {}      # every member function at class-body depth: name -> [dict(params, body or None, const, line, file)]
         self.outer = None
 
@@ -370,6 +371,8 @@ def scan_files(files, classes_in_cpp=False):
             if seg.count("\\\n") > 3: continue
             c = Cls(m.group(2), parse_bases(m.group(3)), t[ob + 1:cb], p, t[:ob].count("\n") + 1, ob + 1)
             c.end = cb
+            tm = re.search(r"template\s*<([^{};]*)>\s*$", t[max(0, m.start() - 400):m.start()], re.S)
+            c.tparams = [x for x in re.findall(r"(?:class|typename)\s*(?:\.\.\.)?\s*([A-Za-z_]\w*)", tm.group(1))] if tm else []
             classes.setdefault(c.name, []).append(c)
     # nesting: qualify nested classes and cut them out of nothing (top_level_decls skips their blocks)
     allc = [c for cs in classes.values() for c in cs]
@@ -721,9 +724,14 @@ def split_targs(t):
     return t[:i], [x.strip() for x in split_top(t[i + 1:j], ',')]
 
 
+CUR_OWNER = [None]      # class whose fields are being emitted (its typedefs name member types)
+
+
 def kind_of_type(ty, classes_fields, depth=0):
     if ty is None: return 'KAtom "?"'
     t = " ".join(ty.split())
+    if CUR_OWNER[0] is not None and depth < 3 and t in CUR_OWNER[0].typedefs and CUR_OWNER[0].typedefs[t].strip() != t:
+        return kind_of_type(CUR_OWNER[0].typedefs[t], classes_fields, depth + 1)
     t = re.sub(r"\b(const|typename|mutable|volatile|struct|class)\b", " ", t)
     t = t.replace("&", " ").strip()
     ptr = t.endswith("*")
@@ -760,6 +768,48 @@ def kind_of_type(ty, classes_fields, depth=0):
         if ks is not None:
             return "KObj [" + "; ".join(ks) + "]"
     return "KAtom " + coq_str(re.sub(r"[^\w<>,:* ]", "", t)[:60])
+
+
+def nested_of_type(ty, owner, nestable, depth=0):
+    """description skeleton of a member type that contains a TRANSLATED class: (expr with {side}_<uid> placeholders,
+    [uids]) or None.  nestable: class name -> uid of the translated classes that may be referenced."""
+    if ty is None or depth > 4: return None
+    t = " ".join(ty.split())
+    t = re.sub(r"\b(const|typename|mutable|volatile|struct|class)\b", " ", t).replace("&", " ").strip()
+    if t.endswith("*"): return None                       # raw pointers are never streamed as objects here
+    t = re.sub(r"\b(std|shark|blas|remora|boost|detail|serialization)\s*::\s*", "", t)
+    t = " ".join(t.split())
+    head, args = split_targs(t)
+    head = head.strip()
+    if "::" in head: return None                          # dependent / nested name: not resolved
+    if owner is not None and head in getattr(owner, "tparams", []): return None     # a template parameter shadows any class of that name
+    if owner is not None and head in owner.typedefs and not args:
+        return nested_of_type(owner.typedefs[head], owner, nestable, depth + 1)
+    if head in ("vector", "deque", "list") and args and not (len(args) >= 2 and args[1].strip() == "cpu_tag"):
+        inner = nested_of_type(args[0], owner, nestable, depth + 1)
+        return ("DVec (%s)" % inner[0], inner[1]) if inner else None
+    if head in ("shared_ptr", "scoped_ptr", "unique_ptr") and args:
+        inner = nested_of_type(args[0], owner, nestable, depth + 1)
+        return ("DOpt (%s)" % inner[0], inner[1]) if inner else None
+    if head in nestable:
+        return ("{side}_%s" % ident(nestable[head]), [nestable[head]])
+    # a class without serialization code of its own inherits that of a translated ancestor (CMAIndividual -> Individual)
+    classes = ALL_CLASSES[0] or {}
+    c = resolve(classes, head)
+    if c is not None and not is_serializable(classes, c):
+        for a in ancestors(classes, c):
+            if a.name in nestable:
+                return ("{side}_%s" % ident(nestable[a.name]), [nestable[a.name]])
+            if is_serializable(classes, a): break
+    return None
+
+
+def nested_of_field(f, owner, nestable):
+    if "base" in f["flags"]:
+        b = f["name"][6:-1]
+        return ("{side}_%s" % ident(nestable[b]), [nestable[b]]) if b in nestable else None
+    if (f.get("sub") or "") != "" or set(f["flags"]) & {"local", "copy", "array", "ccast"}: return None
+    return nested_of_type(f["type"], owner, nestable)
 
 
 def kind_of_field(f, classes_fields):
@@ -962,9 +1012,13 @@ def ident(name):
     return re.sub(r"\W", "_", name)
 
 
-def emit_coq(r, classes_fields):
+def emit_coq(r, classes_fields, nestable=None, owner=None):
     X = ident(r["uid"])
     loops = []
+    CUR_OWNER[0] = owner
+    nestable = dict(nestable or {})
+    nestable.pop(r["name"], None)            # a class never nests itself (recursive types are cut)
+    nested = {"write": [], "read": []}       # uids of the member classes referenced, in order of first use
     def fld(f):
         k = kind_of_field(f, classes_fields)
         g = f["guard"]
@@ -974,6 +1028,21 @@ def emit_coq(r, classes_fields):
         for l in reversed(lp):
             k = "KFix n_loop%d (%s)" % (loops.index(l), k)
         return "F %s %s (%s) %s" % (coq_str(f["name"]), coq_str(f["root"]), k, coq_str(g))
+    def dfld(f, side, used_loops):
+        """nested description of one field: a member of a translated class type refers to that class's description"""
+        nd = nested_of_field(f, owner, nestable)
+        if nd is not None:
+            for u in nd[1]:
+                if u not in nested[side]: nested[side].append(u)
+            d = nd[0].replace("{side}", "w" if side == "write" else "r")
+        else:
+            d = "DPrim (%s)" % kind_of_field(f, classes_fields)
+        lp = re.findall(r"for\([^)]*(?:\([^)]*\)[^)]*)*\)", f["guard"])
+        for l in reversed(lp):
+            i = loops.index(l)
+            if i not in used_loops: used_loops.append(i)
+            d = "DFix n_loop%d (%s)" % (i, d)
+        return (coq_str(f["name"]), coq_str(f["root"]), coq_str(f["guard"]), d)
     w = [fld(f) for f in r["fields"]["write"]]
     rd = [fld(f) for f in r["fields"]["read"]]
     L = []
@@ -985,7 +1054,7 @@ def emit_coq(r, classes_fields):
     for p in r["ignored"][:12]: L.append("   ignored statement  " + p.replace("*)", "* )").replace("(*", "( *"))
     L.append("*)")
     L.append("From Coq Require Import List String.")
-    L.append("From SharkV Require Import C18Model.")
+    L.append("From SharkV Require Import C18Model C18Nested.")
     L.append("Import ListNotations.")
     L.append("Open Scope string_scope.")
     L.append("Section C18_%s." % X)
@@ -1009,6 +1078,30 @@ def emit_coq(r, classes_fields):
         L.append("(* the translator reported a problem with this class: an obligation that cannot be discharged *)")
         L.append("Theorem translator_ok_%s : %s = \"\".\nProof. reflexivity. Qed." % (X, coq_str("; ".join(r["problems"]))[:400].rstrip('"') + '"'))
     L.append("End C18_%s." % X)
+    # ---- nested description: the descriptions of member classes are PARAMETERS (their obligations live in their own
+    # files); coq/gen/C18NestedAll.v (tools/c18.py) plugs them together and instantiates the nested round-trip theorem
+    ul = {"write": [], "read": []}
+    dw = [dfld(f, "write", ul["write"]) for f in r["fields"]["write"]]
+    dr = [dfld(f, "read", ul["read"]) for f in r["fields"]["read"]]
+    def dl(xs):
+        return "".join("\n   (FCons %s %s %s (%s)" % x for x in xs) + " FNil" + ")" * len(xs)
+    L.append("Section C18N_%s." % X)
+    for i in sorted(set(ul["write"] + ul["read"])): L.append("Variable n_loop%d : nat." % i)
+    for u in nested["write"]: L.append("Variable w_%s : desc.  (* write description of member class %s *)" % (ident(u), u))
+    for u in nested["read"]: L.append("Variable r_%s : desc.  (* read description of member class %s *)" % (ident(u), u))
+    lw = " ".join("n_loop%d" % i for i in sorted(ul["write"])); lr = " ".join("n_loop%d" % i for i in sorted(ul["read"]))
+    L.append("Definition wdesc_%s : desc := DObj members_%s transient_%s (%s)." % (X, X, X, dl(dw).strip() if dw else "FNil"))
+    L.append("Definition rdesc_%s : desc := DObj members_%s transient_%s (%s)." % (X, X, X, dl(dr).strip() if dr else "FNil"))
+    L.append("End C18N_%s." % X)
+    allu = []
+    for u in nested["write"] + nested["read"]:
+        if u not in allu: allu.append(u)
+    binders = "".join(" (n_loop%d : nat)" % i for i in sorted(set(ul["write"] + ul["read"]))) + "".join(" (d_%s : desc)" % ident(u) for u in allu)
+    aw = " ".join(["n_loop%d" % i for i in sorted(ul["write"])] + ["d_%s" % ident(u) for u in nested["write"]])
+    ar = " ".join(["n_loop%d" % i for i in sorted(ul["read"])] + ["d_%s" % ident(u) for u in nested["read"]])
+    L.append("(* the read description equals the write description when the member classes' descriptions are the same on both sides *)")
+    L.append("Theorem nrw_%s : %srdesc_%s %s = wdesc_%s %s.\nProof. reflexivity. Qed." % (X, ("forall" + binders + ", ") if binders else "", X, ar, X, aw))
+    r["nested"] = {"write": list(nested["write"]), "read": list(nested["read"]), "loops": sorted(set(ul["write"] + ul["read"]))}
     return "\n".join(L) + "\n"
 
 
@@ -1040,8 +1133,11 @@ def translate(repo, files=None):
     for r in results:
         if r["name"] not in kinds1:
             kinds1[r["name"]] = [kind_of_field(f, {}) for f in r["fields"]["write"]]
+    nestable = {}
     for r in results:
-        r["coq"] = emit_coq(r, kinds1)
+        if r["name"] not in EXCLUDED: nestable.setdefault(r["name"], r["uid"])
+    for r, c in zip(results, todo):
+        r["coq"] = emit_coq(r, kinds1, nestable, c)
     return results, classes
 
 
